@@ -1365,15 +1365,17 @@ class Gen:
             ity = ('named', d)
             v = self.newvar(cx, ity, 'x')
             v.readonly = True
+            init = self.iface_value(cx, ity)
             cx.add(v)
-            return [Decl([v], [self.iface_value(cx, ity)])]
+            return [Decl([v], [init])]
         anys = [v for v in cx.vars() if v.ty == 'any']
         if not anys or r.random() < 0.4:
             v = self.newvar(cx, 'any', 'y')
             v.readonly = True
+            init = self.to_any(cx)
             cx.add(v)
             self.feat.add('any')
-            return [Decl([v], [self.to_any(cx)])]
+            return [Decl([v], [init])]
         a = r.choice(anys)
         t = r.choice([tint(self.kind()), STR, BOOL] + [('named', s) for s in self.structs if s.pkg <= cx.pkg and not self.needs_init(('named', s))])
         x, ok = self.newvar(cx, t), self.newvar(cx, BOOL, 'ok')
